@@ -11,7 +11,8 @@ import numpy as np
 import yaml
 
 X = [1.0, 2.0, 3.0]
-POINTS = [(1.0, 1.0), (0.4, -0.7), (-1.3, 2.2)]
+POINTS = [(1.0, 1.0), (0.4, 0.7), (1.3, 2.2)]          # inside every limit of the catalogue
+HPOINTS = [(2.0, 0.7), (1.8, 0.6), (2.1, 0.75)]         # mean / width of the density, inside every limit
 MODEL_SRC = "def linear_model(x, a=1.0, b=1.0):\n    return a * x + b\n"
 IDX_SRC = "def linear_model(a=1.0, b=1.0):\n    return a * np.arange(1.0, 4.0) + b\n"
 
@@ -25,6 +26,39 @@ def idx_model(a=1.0, b=1.0):
 
 
 idx_model.__name__ = "linear_model"
+
+
+HSAMPLE = [0.3, 0.8, 1.1, 1.4, 1.6, 1.9, 2.1, 2.2, 2.4, 2.5, 2.6, 2.7, 2.9, 3.0, 3.1, 3.3, 3.4, 3.6, 3.9, 4.2, 4.6, 2.45, 2.55, 1.7, 3.2]
+DENS_SRC = "def density(x, a=2.5, b=1.0):\n    return np.exp(-0.5 * ((x - a) / b) ** 2) / np.sqrt(2.0 * np.pi * b ** 2)\n"
+
+
+def density(x, a=2.5, b=1.0):
+    return np.exp(-0.5 * ((x - a) / b) ** 2) / np.sqrt(2.0 * np.pi * b ** 2)
+
+
+def setup_values(kind, st):
+    """concrete numbers of a set-up item for this kind of fit (the spec's small integers are used as they are for xy / indexed)"""
+    if kind in ("hist", "unbinned"):      # parameters are the mean and width of a normal density
+        if st["kind"] == "fix":
+            return dict(p=st["p"], v={1: {0: 2.0, 2: 3.0}, 2: {0: 0.5, 2: 1.5}}[st["p"]][st["v"]])
+        if st["kind"] == "limit":
+            return dict(p=st["p"], lo={1: 0, 2: 0}[st["p"]], hi={1: 2.2, 2: 0.8}[st["p"]])      # the upper limit is active
+        return dict(v=[2.0 + 0.2 * st["v"][0], 1.0 + 0.1 * st["v"][1]])
+    if st["kind"] == "fix":
+        return dict(p=st["p"], v=float(st["v"]) if st["v"] else 0)        # "fixed at 0" is passed as the integer 0
+    if st["kind"] == "limit":
+        return dict(p=st["p"], lo=st["lo"], hi=st["hi"])
+    return dict(v=[float(t) for t in st["v"]])
+
+
+def direct_setup(fit, kind, st):
+    sv = setup_values(kind, st)
+    if st["kind"] == "fix":
+        fit.fix_parameter("ab"[sv["p"] - 1], sv["v"])
+    elif st["kind"] == "limit":
+        fit.limit_parameter("ab"[sv["p"] - 1], sv["lo"], sv["hi"])
+    else:
+        fit.set_all_parameter_values(sv["v"])
 
 
 def src_numbers(src, d):
@@ -132,6 +166,7 @@ def build_side(kind, d, decls, model_form="callable"):
     notes = []
     y = [float(v) for v in d]
     is_src = lambda e: e["item"]["kind"] in ("abs", "rel", "relm")
+    is_setup = lambda e: e["item"]["kind"] in ("fix", "limit", "start")
     yaml_items = [e for e in decls if e["form"] in ("yaml_short", "yaml_full", "yaml")]
     wrap_items = [e for e in decls if e["form"] == "wrapper"]
     done = set()
@@ -141,10 +176,21 @@ def build_side(kind, d, decls, model_form="callable"):
         if len(errs) == 1 and isinstance(errs[0], list) and short:
             v0 = errs[0]
             errs = v0[0] if all(t == v0[0] for t in v0) and len(decls) % 2 else v0      # scalar shorthand or the list
-        cons = [yaml_constraint(e["item"]) for e in yaml_items if not is_src(e)]
-        doc = dict(type=kind)
-        model = MODEL_SRC if kind == "xy" else IDX_SRC
-        if short:      # top-level keys
+        cons = [yaml_constraint(e["item"]) for e in yaml_items if not is_src(e) and not is_setup(e)]
+        doc = dict(type={"hist": "histogram"}.get(kind, kind))
+        model = {"xy": MODEL_SRC, "indexed": IDX_SRC}.get(kind, DENS_SRC)
+        for e in yaml_items:
+            if is_setup(e):
+                sv = setup_values(kind, e["item"])
+                if e["item"]["kind"] == "fix":
+                    doc.setdefault("fixed_parameters", {})["ab"[sv["p"] - 1]] = sv["v"]
+                else:
+                    doc.setdefault("limited_parameters", {})["ab"[sv["p"] - 1]] = [sv["lo"], sv["hi"]]
+        if kind == "hist":
+            doc.update(n_bins=5, bin_range=[0.0, 5.0], raw_data=HSAMPLE, model_density_function=model)
+        elif kind == "unbinned":
+            doc.update(data=HSAMPLE, model_function=model)
+        elif short:      # top-level keys
             if kind == "xy":
                 doc.update(x_data=X, y_data=y)
                 if errs != []:
@@ -198,9 +244,18 @@ def build_side(kind, d, decls, model_form="callable"):
                     continue          # the keyword is taken: this item is added directly afterwards
                 kw[key] = rel if src["kind"] in ("rel", "relm") else float(sig[0])
                 done.add(id(e))
+            elif is_setup(e):
+                sv = setup_values(kind, e["item"])
+                if e["item"]["kind"] == "fix":
+                    kw["fixed"] = ("ab"[sv["p"] - 1], sv["v"])
+                elif e["item"]["kind"] == "limit":
+                    kw["limits"] = ("ab"[sv["p"] - 1], sv["lo"], sv["hi"])
+                else:
+                    kw["p0"] = sv["v"]
+                done.add(id(e))
             else:
                 c = e["item"]
-                if "constraints" in kw:
+                if "constraints" in kw or c["kind"] != "simple":
                     continue
                 kw["constraints"] = ("a", float(c["v"]), c["u"] / 10.0)
                 done.add(id(e))
@@ -209,16 +264,32 @@ def build_side(kind, d, decls, model_form="callable"):
             kw["errors_rel_to_model"] = False      # otherwise the documented default (True) is used
         if kind == "xy":
             res = wrapper.xy_fit(model, X, y, report=False, profile=False, save=False, **kw)
-        else:
+        elif kind == "indexed":
             res = wrapper.indexed_fit(idx_model, y, report=False, profile=False, save=False, **kw)
+        elif kind == "hist":
+            kw.pop("errors_rel_to_model", None)
+            res = wrapper.hist_fit(density, HSAMPLE, n_bins=5, bin_range=(0.0, 5.0), report=False, profile=False, save=False, **kw)
+        else:
+            kw.pop("errors_rel_to_model", None)
+            res = wrapper.unbinned_fit(density, HSAMPLE, report=False, profile=False, save=False, **kw)
         fit = res["fit"]
         notes.append("wrapper:%s" % ",".join(sorted(kw)))
     else:
         if kind == "xy":
             model = {"callable": linear_model, "library": "linear_model", "sympy": "linear_model: x a b -> a * x + b"}.get(model_form, linear_model)
-            fit = XYFit([X, y], model)
-        else:
+            if len(decls) % 2:
+                from kafe2 import Fit, XYContainer
+                fit = Fit(XYContainer(X, y), model)          # the generic constructor picks the fit class from the container
+            else:
+                fit = XYFit([X, y], model)
+        elif kind == "indexed":
             fit = IndexedFit(y, idx_model)
+        elif kind == "hist":
+            from kafe2 import HistContainer, HistFit
+            fit = HistFit(HistContainer(5, (0.0, 5.0), fill_data=HSAMPLE), density)
+        else:
+            from kafe2 import UnbinnedFit
+            fit = UnbinnedFit(HSAMPLE, density)
     for k, e in enumerate(decls):
         if id(e) in done:
             continue
@@ -228,6 +299,8 @@ def build_side(kind, d, decls, model_form="callable"):
                 form = "scalar"
                 notes.append("fallback:scalar")
             direct_add(fit, kind, e["item"], form, d, alt=k)
+        elif is_setup(e):
+            direct_setup(fit, kind, e["item"])
         else:
             if form in ("wrapper", "yaml"):
                 form = "abs" if e["item"]["kind"] == "simple" else "cor"
@@ -236,17 +309,21 @@ def build_side(kind, d, decls, model_form="callable"):
     return fit, notes
 
 
-def observe(fit, fitted=False):
-    out = dict(cov=np.asarray(fit.total_cov_mat, dtype=float) if hasattr(fit, "total_cov_mat") else None)
-    if out["cov"] is None:
-        out["cov"] = np.asarray(fit.total_cov_mat, dtype=float)
+def observe(fit, points=POINTS, reset=(1.0, 1.0)):
+    out = dict()
     costs = []
-    for p in POINTS:
-        fit.set_all_parameter_values(list(p))
+    fixed = dict(fit._fitter.fixed_parameters)
+    start = [float(v) for v in fit.parameter_values]
+    names = list(fit.parameter_names)
+    for p in points:
+        fit.set_parameter_values(**{n: v for n, v in zip(names, p) if n not in fixed})
         costs.append(float(fit.cost_function_value))
     out["costs"] = costs
-    out["cons"] = [float(c.cost(np.asarray(POINTS[1]))) for c in fit.parameter_constraints]
-    fit.set_all_parameter_values([1.0, 1.0])
+    out["cons"] = [float(c.cost(np.asarray(points[1]))) for c in fit.parameter_constraints]
+    out["fixed"] = {k: float(v) for k, v in fixed.items()}
+    out["limits"] = {k: [float(t) for t in v] for k, v in getattr(fit._fitter, "limited_parameters", {}).items()}
+    out["start"] = start
+    fit.set_parameter_values(**{n: v for n, v in zip(names, reset) if n not in fixed})
     return out
 
 
@@ -254,7 +331,13 @@ def total_cov(fit, kind):
     return np.asarray(fit.y_total_cov_mat if kind == "xy" and hasattr(fit, "y_total_cov_mat") else fit.total_cov_mat, dtype=float)
 
 
-def compare_sides(kind, d, left, right, total, cons_normal, k, model_form, do_fit):
+def at_limit(fit):
+    lim = getattr(fit._fitter, "limited_parameters", {})
+    vals = dict(zip(fit.parameter_names, fit.parameter_values))
+    return any(min(abs(vals[n] - lo), abs(vals[n] - hi)) < 1e-2 * (hi - lo) for n, (lo, hi) in lim.items())
+
+
+def compare_sides(kind, d, left, right, total, cons_normal, k, model_form, do_fit, setup_normal=()):
     issues = []
     fl, nl = build_side(kind, d, left, model_form)
     fr, nr = build_side(kind, d, right, "callable")
@@ -262,18 +345,35 @@ def compare_sides(kind, d, left, right, total, cons_normal, k, model_form, do_fi
 
     def viol(sig, detail):
         issues.append(dict(kind="violation", step=k, kf=None, signature="%s %s" % (sig, tag),
-                           detail=dict(left=[(e["item"], e["form"]) for e in left], notes=nl, data=d, model_form=model_form, **detail)))
-    ol, orr = observe(fl), observe(fr)
-    cl, cr = total_cov(fl, kind), total_cov(fr, kind)
-    ideal = np.asarray(total, dtype=float) / 20000.0
-    scale = max(1e-12, float(np.max(np.abs(ideal))))
-    if cl.shape != ideal.shape or not np.allclose(cl, ideal, rtol=0, atol=1e-12 * scale + 1e-15):
-        viol("SameProblem: total covariance of the form differs from its normal form", dict(expected=ideal.tolist(), actual=cl.tolist()))
-        return issues
-    if not np.allclose(cr, ideal, rtol=0, atol=1e-12 * scale + 1e-15):
-        viol("SameProblem: total covariance of the canonical form differs from the normal form", dict(expected=ideal.tolist(), actual=cr.tolist()))
-        return issues
-    for a, b, p in zip(ol["costs"], orr["costs"], POINTS):
+                           detail=dict(declared=[(e["item"], e["form"]) for e in left], notes=nl, data=d, model_form=model_form, **detail)))
+    pts, reset = (HPOINTS, HPOINTS[0]) if kind in ("hist", "unbinned") else (POINTS, POINTS[0])
+    ol, orr = observe(fl, pts, reset), observe(fr, pts, reset)
+    if kind in ("xy", "indexed"):
+        cl, cr = total_cov(fl, kind), total_cov(fr, kind)
+        ideal = np.asarray(total, dtype=float) / 20000.0
+        scale = max(1e-12, float(np.max(np.abs(ideal))))
+        if cl.shape != ideal.shape or not np.allclose(cl, ideal, rtol=0, atol=1e-12 * scale + 1e-15):
+            viol("SameProblem: total covariance of the form differs from its normal form", dict(expected=ideal.tolist(), actual=cl.tolist()))
+            return issues
+        if not np.allclose(cr, ideal, rtol=0, atol=1e-12 * scale + 1e-15):
+            viol("SameProblem: total covariance of the canonical form differs from the normal form", dict(expected=ideal.tolist(), actual=cr.tolist()))
+            return issues
+    # set-up of the parameters: both sides and the normal form
+    exp_fixed, exp_limits = {}, {}
+    for st in setup_normal:
+        sv = setup_values(kind, st)
+        if st["kind"] == "fix":
+            exp_fixed["ab"[sv["p"] - 1]] = float(sv["v"])
+        elif st["kind"] == "limit":
+            exp_limits["ab"[sv["p"] - 1]] = [float(sv["lo"]), float(sv["hi"])]
+    for side, o in (("form", ol), ("canonical form", orr)):
+        if o["fixed"] != exp_fixed:
+            viol("SameProblem: fixed parameters of the %s differ from the declared ones" % side, dict(expected=exp_fixed, actual=o["fixed"]))
+            return issues
+        if o["limits"] != exp_limits:
+            viol("SameProblem: parameter limits of the %s differ from the declared ones" % side, dict(expected=exp_limits, actual=o["limits"]))
+            return issues
+    for a, b, p in zip(ol["costs"], orr["costs"], pts):
         if abs(a - b) > 1e-9 * max(1.0, abs(b)):
             viol("SameProblem: cost differs between the two forms", dict(point=p, left=a, right=b))
             return issues
@@ -284,20 +384,26 @@ def compare_sides(kind, d, left, right, total, cons_normal, k, model_form, do_fi
     for c, cn in zip(fl.parameter_constraints, cons_normal):
         v = np.atleast_1d(np.asarray(cn["v"], dtype=float))
         cov = np.asarray(cn["cov"], dtype=float) / 200.0
-        r = np.asarray(POINTS[1])[:len(v)] - v
+        r = np.asarray(pts[1])[:len(v)] - v
         exp = float(r @ np.linalg.solve(cov, r))
-        got = float(c.cost(np.asarray(POINTS[1])))
+        got = float(c.cost(np.asarray(pts[1])))
         if abs(got - exp) > 1e-9 * max(1.0, abs(exp)):
             viol("SameProblem: constraint cost differs from its normal form", dict(expected=exp, actual=got))
             return issues
     if do_fit:
+        for st in setup_normal:      # a wrapper has already fitted: both sides start from the declared start values (or the defaults)
+            pass
+        start = next((setup_values(kind, st)["v"] for st in setup_normal if st["kind"] == "start"), list(reset))
+        for f in (fl, fr):
+            fx = dict(f._fitter.fixed_parameters)
+            f.set_parameter_values(**{n: v for n, v in zip(f.parameter_names, start) if n not in fx})
         fl.do_fit()
         fr.do_fit()
         pl, pr = np.asarray(fl.parameter_values), np.asarray(fr.parameter_values)
         el, er = np.asarray(fl.parameter_errors), np.asarray(fr.parameter_errors)
         if np.any(np.abs(pl - pr) > 1e-3 * er + 1e-9):
             viol("SameProblem: fit results differ between the two forms", dict(left=pl.tolist(), right=pr.tolist(), sigma=er.tolist()))
-        elif not np.allclose(el, er, rtol=1e-2):
+        elif not at_limit(fl) and not at_limit(fr) and not np.allclose(el, er, rtol=5e-2):      # uncertainties at an active limit are not defined
             viol("SameProblem: parameter uncertainties differ between the two forms", dict(left=el.tolist(), right=er.tolist()))
         elif abs(float(fl.cost_function_value) - float(fr.cost_function_value)) > 1e-6 * max(1.0, abs(float(fr.cost_function_value))):
             viol("SameProblem: minimum cost differs between the two forms", dict(left=float(fl.cost_function_value), right=float(fr.cost_function_value)))
@@ -321,13 +427,18 @@ def replay_walk(walk, kind="xy", model_form="callable"):
         elif a["name"] == "Constrain":
             left.append(dict(item=a["c"], form=a["fl"]))
             right.append(dict(item=a["c"], form=a["fr"]))
+        elif a["name"] == "SetUp":
+            left.append(dict(item=a["st"], form=a["fl"]))
+            right.append(dict(item=a["st"], form=a["fr"]))
         elif a["name"] == "Compare":
-            iss = compare_sides(kind, d, left, right, e["total"], e["cons"], k, model_form, do_fit=False)
+            iss = compare_sides(kind, d, left, right, e["total"], e["cons"], k, model_form, do_fit=False, setup_normal=e.get("setup", []))
             if iss:
                 return iss
-    if not any(e["item"]["kind"] in ("abs", "rel", "relm") for e in left):
+    if kind in ("xy", "indexed") and not any(e["item"]["kind"] in ("abs", "rel", "relm") for e in left):
         return []
-    return compare_sides(kind, d, left, right, last["total"], last["cons"], max(k, 0), model_form, do_fit=True)
+    if not left:
+        return []
+    return compare_sides(kind, d, left, right, last["total"], last["cons"], max(k, 0), model_form, do_fit=True, setup_normal=last.get("setup", []))
 
 
 def replay_xy(w):
@@ -337,3 +448,11 @@ def replay_xy(w):
 
 def replay_indexed(w):
     return replay_walk(w, "indexed", "callable")
+
+
+def replay_hist(w):
+    return replay_walk(w, "hist", "callable")
+
+
+def replay_unbinned(w):
+    return replay_walk(w, "unbinned", "callable")
